@@ -259,6 +259,13 @@ func c13KernelCase(c *ctxT, hid int, rng *rand.Rand) {
 		w.exclusiveCase()
 		c.R.Eval(1)
 		c.R.Count("kernel_cases_exclusive_eni", 1)
+		if hid%100000 < 4 {
+			ev := w.events
+			if len(ev) > 60 {
+				ev = ev[:60]
+			}
+			c.R.Sample(map[string]any{"case": hid, "world": sig, "events": append([]string(nil), ev...)})
+		}
 		return
 	}
 	// policy route: setups and teardowns in PRNG order, some setups repeated
@@ -303,6 +310,13 @@ func c13KernelCase(c *ctxT, hid int, rng *rand.Rand) {
 	}
 	c.R.Eval(1)
 	c.R.Count("kernel_cases_policy_route", 1)
+	if hid%100000 < 4 {
+		ev := w.events
+		if len(ev) > 60 {
+			ev = ev[:60]
+		}
+		c.R.Sample(map[string]any{"case": hid, "world": sig, "events": append([]string(nil), ev...)})
+	}
 }
 
 func (w *c13World) setupCfg(p *c13Pod, dp dtypes.DataPath) *dtypes.SetupConfig {
